@@ -212,3 +212,12 @@ func H(s string) []byte {
 }
 
 func X(b []byte) string { return hex.EncodeToString(b) }
+
+// Recycle overwrites a buffer that was handed to a decoder which has returned:
+// the disk page or receive buffer is reused by its owner. A decoder must not
+// retain its input (the encoding.BinaryUnmarshaler contract).
+func Recycle(b []byte) {
+	for i := range b {
+		b[i] = ^b[i] ^ byte(i*29)
+	}
+}
